@@ -41,6 +41,8 @@ pub const STEMS: &[&str] = &[
     "pi|pe", "amp&", "dol$", "eq=", "com,ma", "co:lon", "apos'", "grave`",
     // escaped braces are not placeholders: the literal is the name, verbatim, for every derive
     "set{{}}", "open{{", "}}close", "a{{b}}c",
+    // trailing / leading line breaks and other whitespace are part of a name
+    "eol\n", "crlf\r\n", "\n", "\ttabbed", "nbsp\u{a0}",
 ];
 
 /// string property values: also texts that look like other literal kinds
